@@ -35,7 +35,11 @@ def run(R):
     srcs += [c["src"] for c in shellgen.deep(12)]       # nesting depth 1..12 of every compound command
     srcs = list(dict.fromkeys(srcs))
     strs = chargen.strings(R, ARITH_ALPHA, 3, name="arith") + chargen.strings(R, PAT_ALPHA, 3, name="pats")
+    # longer arithmetic over a small alphabet (a fault that is not the last thing in the expression), assignment-like words
+    strs += chargen.strings(R, ["1", "0", "/", "+", "(", ")", "x"], 5, name="arith5")
+    srcs += ["x=" + w for w in chargen.strings(R, ["a", ":", "~", "$", "'", "/"], 4, name="assignwords")]
     strs = list(dict.fromkeys(strs))
+    srcs = list(dict.fromkeys(srcs))
     optres = R.tlc("Opts", "INIT Init\nNEXT Next\nINVARIANT Emit\n", name="Opts", workers=4)
     opts = [json.loads(p[1]) for p in optres.prints if p and p[0] == "OPTS"]
     if len(opts) != 64:
